@@ -63,3 +63,8 @@ add("C05", "exploration",
     "Held on the executions explored: every successfully sent notification arrived exactly once, in per-sender order, on the addressed session's stream and on no other; broadcast / filtered counts equalled the streams that received the frame; ListRoots returned the roots of the session it was issued in although every other session posted a forged answer with the same id first; nothing stayed pending after answers, cancellations and time-outs (Streamable, legacy SSE, stdio).",
     "Stream membership is fixed while a batch of broadcasts runs. Library clients as peers are covered by C10 / C07 / C08, not here.",
     "DESIGN.md section 4 C05")
+add("C10", "exploration",
+    "runtime monitoring: a tool emits seeded notification scripts tagged (call nonce, seq); client handlers and call returns are stamped with one logical clock; per-call sequence / happens-before / params / _meta checker; raw peer records the id: lines of every POST stream",
+    "Held on the executions explored: for every call (0-200 notifications, sizes to 256 KiB, progress / log / custom, _meta absent / empty / present, up to 16 calls in flight on one client, stateful and stateless) the handlers saw exactly the emitted sequence, each before the call returned, parameters and _meta intact, result intact; event ids per stream pairwise distinct; with JSON answers or without handlers nothing was delivered and the result was unchanged.",
+    "Handler timing is judged by logical clock. Notifications are emitted by one goroutine per call here (concurrent emitters are C09).",
+    "DESIGN.md section 4 C10")
